@@ -24,7 +24,7 @@ ASSUMPTIONS = ['event patterns are atomic tokens (P1, P2, P[0-9]) so that chunki
 REQUIRED_FLAGS = {'event_answered': 1, 'timeout_event': 1, 'callback_stop': 1, 'split_occurrence': 1, 'list_priority': 1, 'exit_code': 1}
 
 T = 0.3
-STEPS = ['E0', 'E1', 'E2', 'ES', 'W', 'Z']
+STEPS = ['E0', 'E1', 'E2', 'ES', 'EZ', 'W', 'Z']
 TEXT = {'E0': b'plain ', 'E1': b'ask P1 ', 'E2': b'P1 then P2 '}
 
 
@@ -35,6 +35,9 @@ class Peer(object):
         for st in steps:
             if st == 'ES':
                 self.steps += ['ESa', ('D', 0.01), 'ESb']
+            elif st == 'EZ':
+                # an occurrence whose two halves are separated by a pause longer than the timeout
+                self.steps += ['ESa', ('D', 0.5), 'ESb']
             elif st == 'Z':
                 self.steps.append(('D', 0.5))
             else:
@@ -138,11 +141,14 @@ def tables(mode, rec):
         'list-timeout-event': [(TIMEOUT, cb_timeout), (S('P1'), S('a1\n'))],
         'dict-eof-event': {EOF: cb_eof, S('P2'): S('b2\n')},
         'list-cb-true': [(S('P1'), cb_true)],
+        # the later-listed pattern starts earlier in the stream and ends later: stream order decides
+        'list-overlap-later-starts-earlier': [(S('P1'), S('spec\n')), (S('ask P1 '), S('long\n'))],
     }
 
 
 TABLES = ['none', 'dict-str', 'list-str-fn', 'list-overlap-general-first', 'list-overlap-specific-first',
-          'dict-cb-none-method-stop', 'list-timeout-event', 'dict-eof-event', 'list-cb-true']
+          'dict-cb-none-method-stop', 'list-timeout-event', 'dict-eof-event', 'list-cb-true',
+          'list-overlap-later-starts-earlier']
 
 
 def bounds(tier):
@@ -279,7 +285,7 @@ def run_task(task):
                 obs, viol = run_case(task, steps, code, withexit)
                 acc.execs += 1
                 acc.transitions += n + 1
-                nt = any(s in ('E1', 'E2', 'ES', 'W', 'Z') for s in steps)
+                nt = any(s in ('E1', 'E2', 'ES', 'EZ', 'W', 'Z') for s in steps)
                 if nt:
                     acc.nontrivial += 1
                 if obs.get('received'):
@@ -288,7 +294,7 @@ def run_task(task):
                     acc.flags['timeout_event'] += 1
                 if obs.get('stopped'):
                     acc.flags['callback_stop'] += 1
-                if 'ES' in steps and task['table'] != 'none':
+                if ('ES' in steps or 'EZ' in steps) and task['table'] != 'none':
                     acc.flags['split_occurrence'] += 1
                 if task['table'].startswith('list-overlap') and obs.get('received'):
                     acc.flags['list_priority'] += 1
